@@ -27,8 +27,9 @@ type charFacts struct {
 	digit int   // 0 unknown, 1 yes, 2 no
 	eol   int   // 0 unknown, 1 yes, 2 no
 	ascii bool
-	neq   []rune
+	neq    []rune
 	sameAs []int
+	neqCh  []int
 }
 
 type sitem struct {
@@ -89,6 +90,7 @@ func (s *sstate) clone() *sstate {
 		c := *v
 		c.neq = append([]rune{}, v.neq...)
 		c.sameAs = append([]int{}, v.sameAs...)
+		c.neqCh = append([]int{}, v.neqCh...)
 		if v.eq != nil {
 			r := *v.eq
 			c.eq = &r
@@ -200,6 +202,11 @@ type scanOutcome struct {
 	posOK  bool
 	posMsg string
 	isTok  bool
+	// how the token ended (quote readers)
+	endsAtEOF       bool // the last character read was the end-of-input marker
+	lastSameAsFirst bool // the last consumed character is known equal to the first one
+	peekedDifferent bool // a character was peeked after it and is known to differ from the first one (or to be EOF)
+	nConsumed       int
 }
 
 type scanExec struct {
@@ -401,6 +408,22 @@ func (x *scanExec) assume(cond ssa.Value, side bool, st *sstate) bool {
 					if fl.eq != nil && !st.assumeEq(r.ch, *fl.eq, true) {
 						return false
 					}
+					for _, n := range fl.neqCh {
+						if n == r.ch {
+							return false
+						}
+					}
+					fl.sameAs = append(fl.sameAs, r.ch)
+					fr.sameAs = append(fr.sameAs, l.ch)
+				} else {
+					fl, fr := st.facts[l.ch], st.facts[r.ch]
+					for _, n := range fl.sameAs {
+						if n == r.ch {
+							return false
+						}
+					}
+					fl.neqCh = append(fl.neqCh, r.ch)
+					fr.neqCh = append(fr.neqCh, l.ch)
 				}
 				return true
 			case isNilConst(t.Y) || isNilConst(t.X):
@@ -828,6 +851,36 @@ func (x *scanExec) checkReturn(ret *ssa.Return, st *sstate) {
 		posOK, posMsg = x.positionOK(tk, st)
 	}
 	x.recordSite(ret, "return", ok, msg, st, posOK, posMsg, tk != nil && !tk.opaque)
+	// closing information
+	o := &x.outcomes[len(x.outcomes)-1]
+	o.nConsumed = len(st.consumed)
+	if n := len(st.consumed); n > 0 && st.consumed[0].kind == "char" {
+		first := st.consumed[0].ch
+		last := st.consumed[n-1]
+		if last.kind == "char" {
+			if st.facts[last.ch].eof == 1 {
+				o.endsAtEOF = true
+			}
+			if n > 1 {
+				for _, sa := range st.facts[last.ch].sameAs {
+					if sa == first {
+						o.lastSameAsFirst = true
+					}
+				}
+			}
+		}
+		if st.peek != 0 {
+			pf := st.facts[st.peek]
+			if pf.eof == 1 {
+				o.peekedDifferent = true
+			}
+			for _, nc := range pf.neqCh {
+				if nc == first {
+					o.peekedDifferent = true
+				}
+			}
+		}
+	}
 }
 
 // balanced: the value items equal the consumed stack, except for one trailing end-of-input slot.
